@@ -21,6 +21,7 @@ type Effect struct {
 	Amount  string // shape of the amount (roots erased)
 	Arm     string // canonical arm key (sorted labels)
 	Guard   string // all facts at the site (used by DUAL to require the same guard)
+	GuardFS FactSet
 	Pos     token.Pos
 	Via     string
 	Block   *ssa.BasicBlock
@@ -105,7 +106,7 @@ type armLabeler func(f Fact) string
 func statusArm(f Fact) string {
 	t := f.T
 	lab := ""
-	if t.Op == "bin" && t.Name == "==" && t.Args[1].Op == "const" && (strings.HasSuffix(t.Args[0].String(), ".Status") || strings.Contains(strings.ToLower(t.Args[0].String()), "status")) {
+	if t.Op == "bin" && t.Name == "==" && t.Args[1].Op == "const" && strings.HasSuffix(t.Args[0].String(), ".Status") {
 		lab = "Status==" + t.Args[1].Name
 	} else if t.Op == "call" && t.Fn != nil && relPkg(funcPkgPath(t.Fn)) == pkgPodStatus {
 		lab = t.Fn.Name()
@@ -170,7 +171,7 @@ func extractEffects(fx *Facts, fn *ssa.Function, targetOK func(*Term) bool, lab 
 	var out []Effect
 	emit := func(in ssa.Instruction, tgt, am *Term, op, via string) {
 		fs := fx.FactsAt(in)
-		out = append(out, Effect{TargetT: tgt, Target: canon(tgt), Op: op, AmountT: am, Amount: shape(am), Arm: armOf(fs, lab), Guard: fs.String(), Pos: instrPos(in), Via: via, Block: in.Block()})
+		out = append(out, Effect{TargetT: tgt, Target: canon(tgt), Op: op, AmountT: am, Amount: shape(am), Arm: armOf(fs, lab), Guard: fs.String(), GuardFS: fs, Pos: instrPos(in), Via: via, Block: in.Block()})
 	}
 	for _, b := range fn.Blocks {
 		for _, in := range b.Instrs {
@@ -218,7 +219,7 @@ func extractEffects(fx *Facts, fn *ssa.Function, targetOK func(*Term) bool, lab 
 						if e.AmountT != nil {
 							am = e.AmountT.subst(act)
 						}
-						out = append(out, Effect{TargetT: tgt, Target: canon(tgt), Op: e.Op, AmountT: am, Amount: shape(am), Arm: arm, Guard: fs.String(), Pos: instrPos(in), Via: cal.Name() + "→" + e.Via, Block: in.Block()})
+						out = append(out, Effect{TargetT: tgt, Target: canon(tgt), Op: e.Op, AmountT: am, Amount: shape(am), Arm: arm, Guard: fs.String(), GuardFS: fs, Pos: instrPos(in), Via: cal.Name() + "→" + e.Via, Block: in.Block()})
 					}
 				}
 			case *ssa.Store:
@@ -250,7 +251,7 @@ func extractEffects(fx *Facts, fn *ssa.Function, targetOK func(*Term) bool, lab 
 func arithOn(v ssa.Value, loc *Term) (string, *Term) {
 	// ptr.To(*x ± k) idiom
 	if c, ok := v.(*ssa.Call); ok {
-		if cal := c.Common().StaticCallee(); cal != nil && cal.Name() == "To" && len(c.Common().Args) == 1 && strings.HasSuffix(funcPkgPath(cal), "/ptr") {
+		if cal := c.Common().StaticCallee(); cal != nil && strings.HasPrefix(cal.Name(), "To") && len(c.Common().Args) == 1 && strings.HasSuffix(funcPkgPath(cal), "/ptr") {
 			return arithOn(c.Common().Args[0], loc)
 		}
 	}
@@ -377,4 +378,59 @@ func linearSigns(t *Term, sign int, out map[string]int) {
 		return
 	}
 	out[canon(t)] += sign
+}
+
+// dualCheckArm: arm-level variant of dualCheck — per (arm, op) the struct field and its vector
+// twin receive the same number of effects, and the guard of a vector effect may add to the guard
+// of a struct effect only "vector present" tests (len(...) > 0).
+func dualCheckArm(es []Effect, hasTwin func(base *Term, field string) bool) (int, []Effect) {
+	type k struct{ arm, target, op string }
+	byKey := map[k][]Effect{}
+	for _, e := range es {
+		byKey[k{e.Arm, e.Target, e.Op}] = append(byKey[k{e.Arm, e.Target, e.Op}], e)
+	}
+	pairs := 0
+	var bad []Effect
+	for _, e := range es {
+		if (e.Op != "+" && e.Op != "-") || e.TargetT.Op != "field" {
+			continue
+		}
+		name := e.TargetT.Name
+		base := e.TargetT.Args[0]
+		twin := name + "Vector"
+		if strings.HasSuffix(name, "Vector") {
+			twin = strings.TrimSuffix(name, "Vector")
+		}
+		if !hasTwin(base, twin) {
+			continue
+		}
+		tw := canon(base) + "." + twin
+		a, b := byKey[k{e.Arm, e.Target, e.Op}], byKey[k{e.Arm, tw, e.Op}]
+		if len(a) != len(b) {
+			bad = append(bad, e)
+			continue
+		}
+		if !strings.HasSuffix(name, "Vector") {
+			// guards: vector guard ⊇ struct guard, extras only len-tests
+			ok := true
+			for i := range a {
+				for kk := range a[i].GuardFS.M {
+					if _, in := b[i].GuardFS.M[kk]; !in {
+						ok = false
+					}
+				}
+				for kk := range b[i].GuardFS.M {
+					if _, in := a[i].GuardFS.M[kk]; !in && !strings.Contains(kk, "builtin.len") {
+						ok = false
+					}
+				}
+			}
+			if !ok {
+				bad = append(bad, e)
+			} else {
+				pairs++
+			}
+		}
+	}
+	return pairs, bad
 }
